@@ -111,6 +111,14 @@ pub fn check_value(loc: &Locale, case: &Value, st: &mut Stats, mode: Count) {
         }
         other => st.fail("locale:extension-string-does-not-reparse", case.clone(), size, format!("{ext:?} -> {:?}", other.map(|r| r.map(|e| e.to_string())))),
     }
+    // the unchecked Locale constructor with the decomposed parts (sound: the variants come from a
+    // value, hence 'deduplicated and ordered', which is all its safety comment asks for)
+    {
+        let raw = unsafe { Locale::from_raw_parts_unchecked(l, s, r, if v.is_empty() { None } else { Some(v.clone().into_boxed_slice()) }, loc.extensions.clone()) };
+        if raw != *loc || raw.to_string() != loc.to_string() {
+            st.fail("locale:from_raw_parts_unchecked", case.clone(), size, format!("{:?} -> {:?}", loc.to_string(), raw.to_string()));
+        }
+    }
     if loc.extensions.is_empty() {
         let again = Locale::from_parts(l, s, r, &v, None);
         if again != *loc {
